@@ -16,11 +16,13 @@ import (
 	"context"
 	"encoding/hex"
 	"fmt"
+	"net"
 	"runtime"
 	"sort"
 	"strings"
 	"sync"
 	"testing"
+	"time"
 
 	"github.com/AdguardTeam/AdGuardDNS/internal/dnsserver"
 	"github.com/miekg/dns"
@@ -224,6 +226,129 @@ func TestVerifC06Server(t *testing.T) {
 					fmt.Sprint(ev.Warm.Decoded) == fmt.Sprint(ev.Fresh.Decoded)
 				out.Emit(ev)
 			}
+		}
+	}
+}
+
+// c06BurstQuery is a well-formed query that identifies its sender and number
+// in both the ID and the (variable-length) name.
+func c06BurstQuery(client, i int) (b []byte, id uint16, name string) {
+	id = uint16(client*4096 + i)
+	name = fmt.Sprintf("c%d-q%d-%s.burst.example.", client, i, strings.Repeat("z", (client*7+i)%40))
+	m := new(dns.Msg)
+	m.Id = id
+	m.RecursionDesired = true
+	m.Question = []dns.Question{{Name: name, Qtype: dns.TypeA, Qclass: dns.ClassINET}}
+	if i%3 == 0 {
+		m.SetEdns0(1232, i%2 == 0)
+	}
+	b, _ = m.Pack()
+	return b, id, name
+}
+
+// c06Own reports whether the reply bytes are an answer to one of the sender's
+// own queries (ID and question) that spells out exactly that query as decoded.
+func c06Own(reply []byte, own map[uint16]string) bool {
+	r := new(dns.Msg)
+	if r.Unpack(reply) != nil || len(r.Question) != 1 {
+		return false
+	}
+	name, ok := own[r.Id]
+	if !ok || r.Question[0].Name != name {
+		return false
+	}
+	for _, rr := range r.Answer {
+		if txt, isTXT := rr.(*dns.TXT); isTXT {
+			want := fmt.Sprintf("id=%d;qd=1;", r.Id)
+			if !strings.HasPrefix(strings.Join(txt.Txt, ""), want) || !strings.Contains(strings.Join(txt.Txt, ""), ";q="+name+"/1/1") {
+				return false
+			}
+		}
+	}
+	return true
+}
+
+// TestVerifC06Burst: receive buffers shared by requests IN FLIGHT.  Several
+// clients send different queries at the same time (over UDP also back to back
+// from one socket each); every reply a client receives must answer one of its
+// own queries, and the handler must have decoded only messages that were sent.
+func TestVerifC06Burst(t *testing.T) {
+	out := vhOpen(t)
+	h := &c06Handler{}
+	lab := vlabStart(t, h, vlabConf{NoDNSCrypt: true})
+	rounds := vhEnvInt("VERIF_ROUNDS", 3)
+	const clients = 8
+	per := vhEnvInt("VERIF_BURST", 24)
+	for _, path := range append([]string{"udp-burst"}, vlabTransports...) {
+		for round := 0; round < rounds; round++ {
+			h.take()
+			sent := map[string]bool{}
+			var mu sync.Mutex
+			foreign, got := 0, 0
+			var wg sync.WaitGroup
+			for cl := 0; cl < clients; cl++ {
+				own := map[uint16]string{}
+				var msgs [][]byte
+				for i := 0; i < per; i++ {
+					b, id, name := c06BurstQuery(cl+1, i+round*per)
+					own[id] = name
+					msgs = append(msgs, b)
+					sent[fmt.Sprintf("%d/%s", id, name)] = true
+				}
+				wg.Add(1)
+				go func() {
+					defer wg.Done()
+					var replies [][]byte
+					if path == "udp-burst" {
+						c, err := net.Dial("udp", lab.udp.String())
+						if err != nil {
+							return
+						}
+						defer c.Close()
+						for _, b := range msgs {
+							_, _ = c.Write(b)
+						}
+						buf := make([]byte, 65536)
+						for {
+							_ = c.SetReadDeadline(time.Now().Add(300 * time.Millisecond))
+							n, rerr := c.Read(buf)
+							if rerr != nil {
+								break
+							}
+							replies = append(replies, append([]byte{}, buf[:n]...))
+						}
+					} else {
+						for _, b := range msgs[:per/3+1] {
+							replies = append(replies, lab.SendRaw(path, b).Replies...)
+						}
+					}
+					mu.Lock()
+					defer mu.Unlock()
+					for _, r := range replies {
+						got++
+						if !c06Own(r, own) {
+							foreign++
+						}
+					}
+				}()
+			}
+			wg.Wait()
+			unsent := 0
+			for _, s := range h.take() {
+				// id=<id>;qd=1;an=0;ns=0;ar=<n>;q=<name>/1/1...
+				var id int
+				_, _ = fmt.Sscanf(s, "id=%d;", &id)
+				i := strings.Index(s, ";q=")
+				name := ""
+				if i >= 0 {
+					name = strings.SplitN(s[i+3:], "/", 2)[0]
+				}
+				if !sent[fmt.Sprintf("%d/%s", id, name)] {
+					unsent++
+				}
+			}
+			out.Emit(map[string]any{"ev": "Burst", "path": path, "variant": "burst", "round": round, "nexthex": "",
+				"replies": got, "foreign": foreign, "unsent": unsent, "same": foreign == 0, "leak": unsent > 0})
 		}
 	}
 }
